@@ -35,12 +35,14 @@ type DialRec struct {
 	Err    string
 	Conn   *Conn
 	Client string
+	DoneAt time.Duration // when the dial returned (slow dials)
 }
 
 // Conn is the in-memory net.Conn handed to the region client. It models the
 // weakest legal net.Conn: each Write call is atomic and all-or-error,
 // consecutive Writes are not; Read may return any non-empty prefix; deadlines
-// are honoured on the fake clock; Write never blocks.
+// are honoured on the fake clock; Write blocks only while the server is stalled
+// (fault "stall": the peer stops reading) and the window is full.
 type Conn struct {
 	env  *Env
 	N    int // dial ordinal, 1-based
@@ -55,6 +57,8 @@ type Conn struct {
 	rdl        time.Time
 	wdl        time.Time
 	rwake      chan struct{}
+	wwake      chan struct{}
+	held       []byte // bytes accepted into the "socket buffers" while the server is stalled; the server has not seen them
 	ops        int
 	outq       []byte // response bytes produced by the server, not yet delivered
 	frames     []int  // lengths of the frames in outq (for frame-aligned delivery)
@@ -100,10 +104,32 @@ func (e *Env) Dial(ctx context.Context, network, addr string) (net.Conn, error) 
 		return nil, net.ErrClosed
 	}
 	e.mu.Lock()
-	defer e.mu.Unlock()
 	e.NDials++
 	rec := &DialRec{N: e.NDials, Addr: addr, Step: e.Step, At: e.Now()}
 	e.Dials = append(e.Dials, rec)
+	delay := e.DialDelay
+	if delay > 0 {
+		e.Ev("dial#%d %s started, takes %v", rec.N, addr, delay)
+		e.Probe("dial-slow")
+	}
+	e.mu.Unlock()
+	if delay > 0 {
+		t := time.NewTimer(delay)
+		select {
+		case <-ctx.Done():
+			t.Stop()
+		case <-e.frozenCh:
+			t.Stop()
+		case <-t.C:
+		}
+		simrt.Woke("simnet:Dial")
+		if e.frozen.Load() {
+			return nil, net.ErrClosed
+		}
+	}
+	e.mu.Lock()
+	defer e.mu.Unlock()
+	rec.DoneAt = e.Now()
 	fail := func(msg string) (net.Conn, error) {
 		rec.Err = msg
 		e.Ev("dial#%d %s -> %s", rec.N, addr, msg)
@@ -111,6 +137,9 @@ func (e *Env) Dial(ctx context.Context, network, addr string) (net.Conn, error) 
 		return nil, &net.OpError{Op: "dial", Net: network, Err: errors.New(msg)}
 	}
 	if err := ctx.Err(); err != nil {
+		if delay > 0 {
+			e.Probe("dial-slow-cancelled")
+		}
 		return fail(err.Error())
 	}
 	if msg, ok := e.DialFaults[rec.N]; ok {
@@ -120,7 +149,7 @@ func (e *Env) Dial(ctx context.Context, network, addr string) (net.Conn, error) 
 	if srv == nil || !srv.Up {
 		return fail("connection refused")
 	}
-	c := &Conn{env: e, N: rec.N, Addr: addr, Srv: srv, rwake: make(chan struct{}), OpenedAt: e.Now()}
+	c := &Conn{env: e, N: rec.N, Addr: addr, Srv: srv, rwake: make(chan struct{}), wwake: make(chan struct{}), OpenedAt: e.Now()}
 	c.CutAfter = e.CutAfterAll
 	c.SC = e.C.NewConn(srv, rec.N)
 	rec.Conn = c
@@ -147,6 +176,8 @@ func (c *Conn) fault(kind string) *ConnFault {
 func (c *Conn) signal() {
 	close(c.rwake)
 	c.rwake = make(chan struct{})
+	close(c.wwake)
+	c.wwake = make(chan struct{})
 }
 
 func (c *Conn) Read(p []byte) (int, error) {
@@ -222,37 +253,103 @@ func (c *Conn) Write(p []byte) (int, error) {
 	if c.env.frozen.Load() {
 		return 0, net.ErrClosed
 	}
-	c.env.mu.Lock()
-	defer c.env.mu.Unlock()
-	c.mu.Lock()
-	defer c.mu.Unlock()
-	c.Writes++
-	if c.closed {
-		return 0, &net.OpError{Op: "write", Net: "sim", Err: net.ErrClosed}
+	written := 0
+	for first := true; ; first = false {
+		c.env.mu.Lock()
+		c.mu.Lock()
+		n, err, wait, dl := c.writeLocked(p, first)
+		written += n
+		p = p[n:]
+		c.mu.Unlock()
+		c.env.mu.Unlock()
+		if wait == nil {
+			return written, err
+		}
+		// the peer does not read and the window is full: block like a socket
+		if dl.IsZero() {
+			<-wait
+		} else {
+			t := time.NewTimer(time.Until(dl))
+			select {
+			case <-wait:
+				t.Stop()
+			case <-t.C:
+			}
+		}
+		simrt.Woke("simnet:Write")
+		if c.env.frozen.Load() {
+			return written, net.ErrClosed
+		}
 	}
-	if f := c.fault("write"); f != nil {
-		n := int(f.Frac * float64(len(p)))
-		if n >= len(p) {
-			n = len(p) - 1
+}
+
+// writeLocked accepts as much of p as possible. A non-nil wait channel means
+// the caller has to block until it is closed (or the write deadline passes)
+// and call again with the rest.
+func (c *Conn) writeLocked(p []byte, first bool) (n int, err error, wait chan struct{}, dl time.Time) {
+	if first {
+		c.Writes++
+	}
+	if c.closed {
+		return 0, &net.OpError{Op: "write", Net: "sim", Err: net.ErrClosed}, nil, dl
+	}
+	if first {
+		if f := c.fault("write"); f != nil {
+			n := int(f.Frac * float64(len(p)))
+			if n >= len(p) {
+				n = len(p) - 1
+			}
+			if n < 0 {
+				n = 0
+			}
+			if n > 0 {
+				if _, stalled := c.env.Stall[c.Srv.Idx]; stalled {
+					c.held = append(c.held, p[:n]...) // lost with the connection
+				} else {
+					c.feed(p[:n])
+				}
+			}
+			c.broken = true
+			return n, &net.OpError{Op: "write", Net: "sim", Err: errors.New("injected write error (broken pipe)")}, nil, dl
 		}
-		if n < 0 {
-			n = 0
-		}
-		if n > 0 {
-			c.feed(p[:n])
-		}
-		c.broken = true
-		return n, &net.OpError{Op: "write", Net: "sim", Err: errors.New("injected write error (broken pipe)")}
 	}
 	if c.broken {
 		c.Death = append(c.Death, "write on broken connection")
-		return 0, &net.OpError{Op: "write", Net: "sim", Err: errors.New("broken pipe")}
+		return 0, &net.OpError{Op: "write", Net: "sim", Err: errors.New("broken pipe")}, nil, dl
 	}
 	if !c.wdl.IsZero() && !time.Now().Before(c.wdl) {
-		return 0, errTimeout
+		return 0, errTimeout, nil, dl
 	}
-	c.feed(p)
-	return len(p), nil
+	win, stalled := c.env.Stall[c.Srv.Idx]
+	if !stalled {
+		c.feed(p)
+		return len(p), nil, nil, dl
+	}
+	if space := win - len(c.held); space > 0 {
+		n = len(p)
+		if n > space {
+			n = space
+		}
+		c.held = append(c.held, p[:n]...)
+		c.env.Ev("c%d W %d held", c.N, n)
+	}
+	if n == len(p) {
+		return n, nil, nil, dl
+	}
+	c.env.Probe("write-blocked")
+	c.env.Ev("c%d W blocks with %d bytes left", c.N, len(p)-n)
+	return n, nil, c.wwake, c.wdl
+}
+
+// flushHeld hands the bytes held back during a stall to the server.
+func (c *Conn) flushHeld() {
+	c.mu.Lock()
+	defer c.mu.Unlock()
+	if len(c.held) > 0 && !c.closed && !c.broken {
+		c.feed(c.held)
+	}
+	c.held = nil
+	c.signal()
 }
 
 func (c *Conn) feed(p []byte) {
@@ -342,6 +439,7 @@ func (c *Conn) SetWriteDeadline(t time.Time) error {
 		return &net.OpError{Op: "set", Net: "sim", Err: net.ErrClosed}
 	}
 	c.wdl = t
+	c.signal()
 	return nil
 }
 
@@ -361,6 +459,9 @@ func (c *Conn) alive() bool {
 }
 
 func (c *Conn) execEnabled() bool {
+	if _, stalled := c.env.Stall[c.Srv.Idx]; stalled {
+		return false
+	}
 	return len(c.SC.Pending) > 0 && c.Srv.Up && !c.Srv.Silent && !c.SC.Closed && c.alive()
 }
 
@@ -518,8 +619,16 @@ func (z *ZK) LocateResource(r zk.ResourceName) (string, error) {
 	delay := z.Delay
 	e.mu.Unlock()
 	if delay > 0 {
-		time.Sleep(delay)
+		t := time.NewTimer(delay)
+		select {
+		case <-t.C:
+		case <-e.frozenCh:
+			t.Stop()
+		}
 		simrt.Woke("simzk:Locate")
+		if e.frozen.Load() {
+			return "", errors.New("zk: closed")
+		}
 	}
 	e.mu.Lock()
 	defer e.mu.Unlock()
